@@ -76,9 +76,15 @@ CHECKS = {
    technique="TLA+ model of the client order object (transcribed method by method) against an exchange following the FIX 4.4 order state change matrices with two in-flight queues (spec/OrderLifeFn.tla step function, spec/OrderLife.tla state machine) model-checked by TLC for O1-O5; every maximal behaviour of a bounded instance and TLC -simulate behaviours replayed on a real FIXNewOrderSingle (all reports come from the TLA+ exchange); recorded attributes judged by TLC (spec/OrderLifeEval.tla)",
    text="All interleavings of new / cancel / replace (qty up, down, price) with pending-new, ack, reject, fills racing with pending requests, pending-cancel/replace reports, cancelled, replaced, request rejects, expire, unsolicited cancel, suspend/resume and with both queues, up to the bounds; at every quiescent point the real object's status, cum, leaves, qty, price must equal the exchange's, finished orders refuse requests, a permitted request builds, uses a fresh ClOrdID with the same root and refers to the live ClOrdID; the status is always an enum member.",
    design_ref="5/C17", note="Roots, quantity units (integer, fractional, large) and price units are varied per trace by seed. " + COMMON_NOTE),
+ "C18": dict(engine="Container",
+   technique="TLA+ reference model of FIXContainer/FIXMessage as an ordered tag map (spec/Container.tla: every public method as ApplyOp) explored by TLC (spec/ContainerMC.tla: order and duplicate laws); a shortest operation path to every model state x every mutating operation x a battery of accessors replayed on real FIXMessage objects; every result and the content after every operation compared by TLC (spec/ContainerEval.tla); seeded random sequences",
+   text="set / replace / delete / get (with default) / contains with int, decimal string, tag enum and non-integer spellings; str, int, float and enum values; add_group at index -1, 0, mid, beyond; set_group; group lookups by list, index and member value; equality with containers and dicts (with framing tags); pickle round trip - compared step by step with the model, 'unspecified' outcomes skipped.",
+   design_ref="5/C18", note="The list of unspecified cases is in the module header of spec/Container.tla and in the evidence assumptions. " + COMMON_NOTE),
 }
 
 ENGINES = [
+ dict(name="Container", path="spec/Container.tla spec/ContainerMC.tla spec/ContainerEval.tla harness/props/c18.py",
+      serves_properties=["C18"], kind_free_text="TLA+ reference model of the message container + TLC + refinement check on real objects"),
  dict(name="OrderLife", path="spec/OrderLifeFn.tla spec/OrderLife.tla spec/OrderLifeEval.tla harness/props/c17.py",
       serves_properties=["C17"], kind_free_text="TLA+ model of order object x FIX exchange x in-flight queues + TLC + replay on the real order object"),
  dict(name="OrderStatus", path="spec/OrderStatus.tla spec/OrderStatusMC.tla spec/OrderStatusEval.tla harness/props/c16.py",
